@@ -150,6 +150,10 @@ pub fn special_str_payload(rng: &mut Rng, q: u8, max: usize, newlines: bool) -> 
                     v.push(c);
                 }
             }
+            7 if newlines && rng.chance(1, 4) => {
+                const NULS: [&[u8]; 4] = [b"\n\0", b"\n\0\0", b"\n\0\0\0", b"\0\n"];
+                v.extend_from_slice(NULS[rng.below(4)])
+            }
             _ => v.push(*rng.pick(b"abcXYZ019")),
         }
     }
@@ -161,6 +165,7 @@ pub fn special_blk_payload(rng: &mut Rng, max: usize, newlines: bool) -> Vec<u8>
     (0..n)
         .map(|_| {
             let c = match rng.below(4) {
+                0 if rng.chance(1, 6) => 0u8,
                 0 | 1 => *rng.pick(SPECIAL),
                 2 => rng.byte(),
                 _ => *rng.pick(b"abc019"),
@@ -255,7 +260,7 @@ fn args_for(rng: &mut Rng, d: &DeclSpec, pay: Payloads) -> Vec<Vec<u8>> {
 pub fn fail_code(rng: &mut Rng) -> i16 {
     if rng.chance(1, 6) {
         // the handler raises one of the library's standard errors, or Custom(0, "")
-        return *rng.pick(&[-200i16, -220, -221, -222, -224, -240, -400, 0]);
+        return *rng.pick(&[-113i16, -200, -220, -221, -222, -224, -240, -400, 0]);
     }
     // unique-looking device specific codes, away from the standard numbers
     (1000 + rng.below(20000)) as i16 * if rng.chance(1, 2) { 1 } else { -1 }
